@@ -1,8 +1,76 @@
 import PymtlVerif.Driver.Sexp
-/-! Handler `gendag`: stub, filled by its builder. -/
-namespace PV.Driver.GenDag
-open PV
+import PymtlVerif.Driver.Nets
+import PymtlVerif.Model.GenDag
+/-! Handler `gendag`: executable face of `Model/GenDag.lean` (C02, value constraints of GenDAGPass).
 
-def handle (_args : List Sexp) : Option String := none
+Request:  `gendag run (objs (sid kind host (f…) none|(lo hi))…) (blks (id ff (r…) (w…))…) (uu (a b)…)
+                      (rdu (o lt blk)…) (wru (o lt blk)…)`
+          objects are encoded as for the `nets` handler; blocks and constraints name objects by their
+          index in `objs`; `lt` = 1 for `RD(x) < U`, 0 for `RD(x) > U`.
+Reply (one line): `(final (a b)…) (impl (a b)…) (expl (a b)…) (cobjs (a b o)…)` — each list sorted,
+          without repetitions; `cobjs` = `constraint_objs` flattened to (pair, object index).
+          `gendag topo (pairs (a b)…) (order id…)` → `1`/`0`.
+`bad-op` for a malformed request, an index out of range, two table entries for one object, repeated
+block ids, a signal whose objects disagree on kind/host, an empty slice.
+-/
+namespace PV.Driver.GenDag
+open PV PV.Nets PV.GenDag
+
+def tagged := PV.Driver.Nets.tagged
+
+def pairLe (x y : Nat × Nat) : Bool := x.1 < y.1 || (x.1 == y.1 && x.2 ≤ y.2)
+def tripLe (x y : (Nat × Nat) × Nat) : Bool := (x.1 != y.1 && pairLe x.1 y.1) || (x.1 == y.1 && x.2 ≤ y.2)
+
+def dedupAdj {α : Type} [BEq α] : List α → List α
+  | [] => []
+  | [a] => [a]
+  | a :: b :: l => if a == b then dedupAdj (b :: l) else a :: dedupAdj (b :: l)
+
+def canonPairs (l : List (Nat × Nat)) : List (Nat × Nat) := dedupAdj (l.mergeSort pairLe)
+
+def showPairs (l : List (Nat × Nat)) : String :=
+  " ".intercalate ((canonPairs l).map (fun p => s!"({p.1} {p.2})"))
+
+def getObj (tbl : Array Obj) (x : Sexp) : Option Obj := do tbl[(← x.nat?)]?
+
+def blk? (tbl : Array Obj) : Sexp → Option GenDag.Blk
+  | .list [i, ff, .list rs, .list ws] => do
+      some ⟨← i.nat?, ← ff.bool?, ← rs.mapM (getObj tbl), ← ws.mapM (getObj tbl)⟩
+  | _ => none
+
+def pair? : Sexp → Option (Nat × Nat)
+  | .list [a, b] => do some (← a.nat?, ← b.nat?)
+  | _ => none
+
+def vc? (tbl : Array Obj) : Sexp → Option VC
+  | .list [o, lt, b] => do some ⟨← getObj tbl o, ← lt.bool?, ← b.nat?⟩
+  | _ => none
+
+def input? (tbl : Array Obj) (b u r w : Sexp) : Option Input := do
+  let bs ← (← tagged "blks" b).mapM (blk? tbl)
+  let us ← (← tagged "uu" u).mapM pair?
+  let rs ← (← tagged "rdu" r).mapM (vc? tbl)
+  let ws ← (← tagged "wru" w).mapM (vc? tbl)
+  some ⟨bs, us, rs, ws⟩
+
+def showRun (tbl : List Obj) (I : Input) : String :=
+  let co := (constraintObjs I).map (fun t => (t.1, tbl.findIdx (· == t.2)))
+  let co := dedupAdj (co.mergeSort tripLe)
+  let cos := " ".intercalate (co.map (fun t => s!"({t.1.1} {t.1.2} {t.2})"))
+  s!"(final {showPairs (valueConstraints I)}) (impl {showPairs (implicitPairs I)}) " ++
+  s!"(expl {showPairs (explicitPairs I)}) (cobjs {cos})"
+
+def handle (args : List Sexp) : Option String :=
+  match args with
+  | [.atom "run", o, b, u, r, w] => do
+      let os ← (← tagged "objs" o).mapM PV.Driver.Nets.obj?
+      if dedup (os.map Obj.key) != os.map Obj.key then none else
+      let I ← input? os.toArray b u r w
+      if I.wf then some (showRun os I) else none
+  | [.atom "topo", p, o] => do
+      let ps ← (← tagged "pairs" p).mapM pair?
+      let ord ← (← tagged "order" o).mapM Sexp.nat?
+      some (b2s (topoFor ps ord))
+  | _ => none
 
 end PV.Driver.GenDag
